@@ -61,7 +61,7 @@ theorem addEventRoute_offCfg (cfg : Cfg) (att : Attempt) (target : Option Nat) (
 theorem processAddEvent_offCfg (cfg : Cfg) (att : Attempt) (target : Option Nat) (st : State) (now : Int)
     (h : OffCfg cfg st) : OffCfg cfg (processAddEvent cfg att target st now).1 := by
   unfold processAddEvent
-  have hall : ∀ c ∈ cfg.steps, cfg.hasStep c.name = true := fun c hc => hasStep_of_mem hc
+  have hall : ∀ c ∈ cfg.steps, cfg.hasStep c.name = true := fun c hc => hasStep_of_mem_steps hc
   apply addEventRoute_offCfg cfg att target now cfg.steps _ hall
   apply addEventWaiters_offCfg cfg att.ev target now cfg.steps _ hall
   apply h.of_workers
@@ -184,7 +184,7 @@ theorem rewindLoop_offCfg (cfg : Cfg) (now : Int) : ∀ (cs : List StepCfg) (st 
     exact rewindLoop_offCfg cfg now cs _ _ (fun d hd => hc d (by simp [hd])) (h.set (hc c (by simp)) _)
 
 theorem rewind_offCfg (cfg : Cfg) (st : State) (now : Int) (h : OffCfg cfg st) : OffCfg cfg (rewind cfg st now).1 :=
-  rewindLoop_offCfg cfg now _ st [] (fun c hc => hasStep_of_mem (mem_sortedSteps_iff.mp hc)) h
+  rewindLoop_offCfg cfg now _ st [] (fun c hc => hasStep_of_mem_steps (mem_sortedSteps_iff.mp hc)) h
 
 theorem init_offCfg (cfg : Cfg) (st0 : State) (now : Int) (start : Option Ev) (timeout : Option Nat)
     (h : OffCfg cfg st0) : OffCfg cfg (Runner.init cfg st0 now start timeout).st := by
